@@ -250,7 +250,8 @@ class Sim:
             comps = [c for c in path.split("/") if c]
             props = sorted((k, v) for k, v in e["props"].items() if k != "tag")
             out.append({"path": comps, "tag": e["tag"], "props": [list(x) for x in props],
-                        "items": sorted([{"href": canon_href(h), "uid": e["items"][h]["uid"], "etag_raw": e["items"][h]["etag"]} for h in e["items"]],
+                        "items": sorted([{"href": canon_href(h), "uid": e["items"][h]["uid"], "etag_raw": e["items"][h]["etag"], "name": e["items"][h].get("name")}
+                                        for h in e["items"]],
                                          key=lambda i: i["href"])})
         return out
 
